@@ -12,8 +12,11 @@ Bound == ntok <= MaxTok /\ Len(slots) <= MaxSlots
 Skel  == <<kind, [i \in DOMAIN slots |-> IF slots[i].tok # 0 THEN slots[i].id ELSE Zero],
            MaxOfIds({slots[i].id : i \in DOMAIN slots}), def, IF err > 0 THEN 1 ELSE err>>
 Emit  == PrintT(<<"BEHAV", ToJson(hist')>>)
-CTexts == {<<103, 111>>, <<115, 116, 111, 112, 33>>}     \* "go", "stop!" (hash needs 64 bits)
+\* command words: "go"; one with an embedded NUL and a byte >= 128 ("g\0\310"); a longer one
+\* of that kind whose hash needs 64 bits ("s\0\310op")
+CTexts == {<<103, 111>>, <<115, 0, 200, 111, 112>>}
 CHRs   == {<<1, 0>>}                                  \* table shapes: one handler result
-CTexts1 == {<<103, 111>>}
+CTexts1 == {<<103, 0, 200>>}
+CTextsF == {<<103, 111>>}
 CHRsAll == {<<0, 0>>, <<0, 1>>, <<1, 0>>, <<1, 1>>, <<2, 0>>, <<3, 0>>, <<3, 1>>, <<4, 0>>, <<5, 1>>, <<6, 0>>, <<-1, 0>>, <<-1, 1>>}
 =============================================================================
